@@ -35,7 +35,27 @@ UNITS["C12"] = [
          assumptions=["change ids < u64::MAX (they are SQLite INTEGER values); only the client-library clause of C12 is decided — server-side catch-up races are concurrent async code and are NOT decided"]),
 ]
 
+UNITS["C18"] = [
+    dict(kind="verus", name="c18_remove", template="specs/c18_remove.vrs",
+         under_contract=["Members::remove_member", "MemberState::new", "MemberState::is_ring0"],
+         vacuity=["remove_member", "new", "is_ring0"], replay="c18_members",
+         assumptions=["std BTreeMap contract (lib/maps.vrs); derived PartialEq on Timestamp is field equality"]),
+    dict(kind="kani", name="c18_members", crate="kani/c18_members",
+         harnesses=[
+             dict(name="remove_member_contract", bound="<=2 existing members, ids/addrs over 4 values, ts/cluster full u64/u16; inductive step from an arbitrary state"),
+             dict(name="add_member_contract", bound="<=2 existing members, ids/addrs over 4 values, ts/cluster full u64/u16; inductive step from an arbitrary state"),
+             dict(name="add_member_keeps_address_index", bound="same"),
+             dict(name="add_rtt_contract", bound="<=2 members, 20-slot sample history fully symbolic (< 2^40 ms)"),
+             dict(name="ring0_contract", bound="<=2 members"),
+         ],
+         trusted=["stand-in: array-backed map for std BTreeMap (capacity 3)", "stand-in: array ring buffer for circular_buffer::CircularBuffer",
+                  "stand-in newtypes for ActorId/SocketAddr/ClusterId/Timestamp (Timestamp::to_duration monotone)"],
+         replay="c18_members",
+         assumptions=["SWIM premise: two live peers never announce the same address; a down notification carries the identity's own address"]),
+]
+
 NOTES = {
+    "C18": "inductive transition contracts of Members (history length unbounded, state size bounded => Kani harnesses are labelled bounded)",
     "C12": "client clause only: SubscriptionStream accepts an event iff its id is last+1 and reports MissedChange otherwise",
     "C02": "bookkeeping algebra of one actor: PartialVersion completeness; gap computation; contains predicates",
     "C08": "per-call tiling contract of the real ChunkedChanges::next + verified driver for the whole-run statement; chunk_range: see kani unit",
